@@ -42,3 +42,18 @@ def pastedResource (own : KVs) (included : List KVs) (k n : String) : Option Val
   firstDef (own :: included) k n
 
 end CV.Include
+
+namespace CV.Include
+open CV CV.Val
+
+/-- the included projects as loaded on their own, in the order of the `include:` list: for each entry the plan
+(files, project directory, working directory), the layered environment, and the sub-load — nothing is imported -/
+def subLoads (W : World) (wd L : String) (env : Env) (chain : List String) : List IncCfg → Out (List KVs)
+  | [] => .ok []
+  | r :: rs =>
+    (plan W wd L chain r).bind fun pl =>
+    (includeEnv W wd pl.projDir env r.envFile).bind fun env' =>
+    (W.loadModel pl.relwd pl.projDir pl.paths env' chain).bind fun im =>
+    (subLoads W wd L env chain rs).bind fun ims => .ok (im :: ims)
+
+end CV.Include
